@@ -24,6 +24,11 @@ def backend_layout(w, nshards=NSHARDS, replicas=2):
 
 def pool_for(be, cfg, nshards=NSHARDS, extra=None, pool_size=2):
     shards = {}
+    if cfg.get('hash_n'):
+        # hash-only pool: n shards that all point at the shard-0 servers (only SHOW SHARD is used)
+        nshards = 0
+        for sh in range(cfg['hash_n']):
+            shards[str(sh)] = {'database': 'db', 'servers': [['127.0.0.1', be[(0, 'primary', 0)].port, 'primary']]}
     for sh in range(nshards):
         servers = []
         for (s, role, idx), b in sorted(be.items()):
